@@ -28,7 +28,11 @@ func ownedBy(w *World, root *ssa.Function, pkgRel string) map[*ssa.Function]bool
 		plain bool
 	}
 	sites := map[*ssa.Function][]site{}
+	boundOK := map[*ssa.Function]bool{}
 	for _, fn := range w.ModuleFuncs() {
+		if strings.HasSuffix(fn.Name(), "$bound") {
+			continue // judged where the method value is taken
+		}
 		for _, cl := range callsIn(fn) {
 			if cal := staticCallee(cl); cal != nil {
 				_, isCall := cl.(*ssa.Call)
@@ -36,11 +40,27 @@ func ownedBy(w *World, root *ssa.Function, pkgRel string) map[*ssa.Function]bool
 				sites[cal] = append(sites[cal], site{fn, isCall || isDefer})
 			}
 		}
-		// method values / function values taken (escape): treat as non-plain site
+		// method values / function values taken (escape): treat as non-plain site - except a bound
+		// method value that is only ever called from the function that takes it (and its literals): that is
+		// an ordinary synchronous call of the method
 		eachInstr(fn, func(in ssa.Instruction) {
 			for _, op := range in.Operands(nil) {
 				if f, ok := (*op).(*ssa.Function); ok {
 					if cl, isCl := in.(ssa.CallInstruction); isCl && cl.Common().Value == ssa.Value(f) {
+						continue
+					}
+					if mc, isMC := in.(*ssa.MakeClosure); isMC && mc.Fn == ssa.Value(f) && strings.HasSuffix(f.Name(), "$bound") && closureOnlyCalled(mc) {
+						// the wrapper forwards to the method: record a plain call of the method from fn
+						for _, cc := range callsIn(f) {
+							if cal := staticCallee(cc); cal != nil {
+								root := fn
+								for root.Parent() != nil {
+									root = root.Parent()
+								}
+								sites[cal] = append(sites[cal], site{root, true})
+							}
+						}
+						boundOK[f] = true
 						continue
 					}
 					if f.Parent() == nil {
@@ -464,7 +484,7 @@ func c11(c *Ctx) {
 				// events empty
 				okE := strings.Contains(cs, "awaitingEvents") && strings.Contains(cs, "==0:int)=true") || strings.Contains(cs, "(call(builtin len)==0:int)=true")
 				// metrics absent: either an explicit nil test, or a dominating comma-ok early return
-				okM := strings.Contains(cs, "awaitingMetrics") && (strings.Contains(cs, "==nil") || strings.Contains(cs, "#1=false"))
+				okM := knownNil(factsAt(cl.Block()), func(v ssa.Value) bool { return strings.Contains(pathOf(v), "awaitingMetrics[") })
 				if !okM {
 					for _, cd := range condsFor(cl.Block()) {
 						cd = normCond(cd)
@@ -533,7 +553,8 @@ func c11(c *Ctx) {
 			switch cs.Kind {
 			case "+1":
 				conds := condStrings(cs.St.Block())
-				ok := len(conds) == 1 && strings.Contains(conds[0], "builtin len") && strings.Contains(conds[0], "==0)=true")
+				fsE := factsAt(cs.St.Block())
+				ok := len(fsE) == 1 && knownEmpty(fsE, func(v ssa.Value) bool { return true })
 				r.Check("event-hosts:++on-first-event", ok, cs.St.Pos(), "hosts_queued{type:event}++ under exactly 'the source had no parked events': "+strings.Join(conds, " && "))
 			case "-1":
 				var del ssa.Instruction
@@ -1171,4 +1192,82 @@ func goValueOrigin(g *ssa.Go, cl *ssa.Function, v ssa.Value) ssa.Value {
 		}
 	}
 	return nil
+}
+
+// closureOnlyCalled: the function value created by mc is only ever called (directly, or through
+// a local variable that is itself only loaded in order to be called, possibly from nested function
+// literals); it is never started with go, stored elsewhere or passed on.
+func closureOnlyCalled(mc *ssa.MakeClosure) bool {
+	onlyCalls := func(v ssa.Value) bool {
+		for _, ref := range referrers(v) {
+			switch x := ref.(type) {
+			case *ssa.Call:
+				if x.Call.Value != v {
+					return false
+				}
+			case *ssa.Defer:
+				if x.Call.Value != v {
+					return false
+				}
+			case *ssa.DebugRef:
+			default:
+				return false
+			}
+		}
+		return true
+	}
+	for _, ref := range referrers(mc) {
+		switch x := ref.(type) {
+		case *ssa.Call:
+			if x.Call.Value != ssa.Value(mc) {
+				return false
+			}
+		case *ssa.Defer:
+			if x.Call.Value != ssa.Value(mc) {
+				return false
+			}
+		case *ssa.DebugRef:
+		case *ssa.Store:
+			cell, ok := x.Addr.(*ssa.Alloc)
+			if !ok || x.Val != ssa.Value(mc) {
+				return false
+			}
+			// every use of the cell: loads that are only called, or bindings into nested literals that do the same
+			for _, cr := range referrers(cell) {
+				switch y := cr.(type) {
+				case *ssa.Store:
+					if y.Addr != ssa.Value(cell) {
+						return false
+					}
+				case *ssa.UnOp:
+					if !onlyCalls(y) {
+						return false
+					}
+				case *ssa.MakeClosure:
+					fn, _ := y.Fn.(*ssa.Function)
+					if fn == nil {
+						return false
+					}
+					for i, b := range y.Bindings {
+						if b != ssa.Value(cell) {
+							continue
+						}
+						fv := fn.FreeVars[i]
+						for _, fr := range referrers(fv) {
+							ld, ok := fr.(*ssa.UnOp)
+							if !ok || !onlyCalls(ld) {
+								return false
+							}
+						}
+					}
+				case *ssa.DebugRef:
+				default:
+					return false
+				}
+			}
+		default:
+			return false
+		}
+	}
+	return true
 }
